@@ -256,6 +256,21 @@ def tree_eval(prog):
         except PyRaise as pr:
             out["absent-index"] = ("with `required` errors below the root only (each error's instance is the object lacking the member), looking up an error-free sibling "
                                    "of the root or of an array raises %s: a node consulted an instance that is not its own" % pr.name)
+        # the error of a `false` schema has no keyword (validator is None): it is filed under None like any other, first in line or not;
+        # of two errors with the same place and keyword the one that arrived last is the one kept
+        n1 = VE("False schema does not allow 1", validator=None, path=[], instance=1)
+        n2 = VE("dup-a", validator="pattern", path=["p"], instance="x")
+        n3 = VE("dup-b", validator="pattern", path=["p"], instance="x")
+        n4 = VE("False schema does not allow 2", validator=None, path=["p"], instance=2)
+        for order, want_root, want_p in (([n1], {None: n1}, None), ([n1, n2, n3], {None: n1}, {"pattern": n3}), ([n2, n3, n4, n1], {None: n1}, {"pattern": n3, None: n4}),
+                                         ([n4, n2], {}, {None: n4, "pattern": n2})):
+            t6 = T(list(order))
+            got_root = dict(g(t6, "errors"))
+            got_p = dict(g(t6["p"], "errors")) if want_p is not None else None
+            if (got_root != want_root or got_p != want_p) and out["filing"] is None:
+                out["filing"] = ("errors arriving as %s: the root holds %r and ['p'] holds %r; expected %r and %r (an error without a keyword is filed under None; of "
+                                 "two errors with one place and keyword the later one is kept)" % (
+                                     [(list(g(e, "path")), g(e, "validator")) for e in order], got_root, got_p, want_root, want_p))
         # building a tree reads the errors; it does not change them (their paths are looked at again afterwards)
         out["errors-untouched"] = None
         for e, pth in ((e0, []), (e2, ["x", 0]), (e5, ["x"]), (e7, ["a", "b"]), (f4, ["a", "b", "c"]), (f6, [])):
